@@ -186,6 +186,7 @@ fn strategy_of(sc: &Scenario, total_ops: usize) -> Strategy {
     }
     match sc.strategy.kind.as_str() {
         "sequential" => Strategy::Sequential,
+        "lockstep" => Strategy::RoundRobin,
         "sticky" => Strategy::Sticky(sc.strategy.p.max(1)),
         "pct" => Strategy::Pct { d: sc.strategy.d.max(1), horizon: (total_ops as u32) * if sc.fn_mean > 0 { 400 } else { 60 } + 20 },
         _ => Strategy::Uniform,
@@ -723,7 +724,13 @@ pub fn gen_episode(c: &Corpus, seed: u64, fn_available: bool) -> Scenario {
     }
     // a share of the overlapping episodes runs in the function-entry build (if there is one)
     let fn_mean = if fn_available && threads.len() >= 2 && matches!(mode, "concurrent" | "mirror") && r.chance(1, 3) { [2u32, 6, 20, 60][r.usize(4)] } else { 0 };
-    let strategy = if fn_mean > 0 {
+    // lockstep: every thread builds the same thing and the token goes round at every (about
+    // k-th) function entry - two threads are inside the same short function at the same time
+    let lockstep = fn_available && mode == "mirror" && threads.len() >= 2 && threads[0].len() <= 2 && r.chance(1, 6);
+    let fn_mean = if lockstep { [1u32, 2, 3, 5][r.usize(4)] } else { fn_mean };
+    let strategy = if lockstep {
+        StrategySpec { kind: "lockstep".into(), p: 0, d: 0 }
+    } else if fn_mean > 0 {
         // few, well-placed switches: a hand-over costs far more than a function entry
         match r.below(3) {
             0 => StrategySpec { kind: "sticky".into(), p: 20, d: 0 },
